@@ -495,7 +495,12 @@ func handleSUNION(params internal.HandlerFuncParams) ([]byte, error) {
 	var sets []*Set
 
 	values := params.GetValues(params.Context, keys.ReadKeys)
-	for key, value := range values {
+	for _, key := range keys.ReadKeys {
+		value := values[key]
+		if value == nil {
+			// A key that does not exist is an empty set
+			continue
+		}
 		set, ok := value.(*Set)
 		if !ok {
 			return nil, fmt.Errorf("value at key %s is not a set", key)
@@ -519,7 +524,12 @@ func handleSUNIONSTORE(params internal.HandlerFuncParams) ([]byte, error) {
 	var sets []*Set
 
 	values := params.GetValues(params.Context, keys.ReadKeys)
-	for key, value := range values {
+	for _, key := range keys.ReadKeys {
+		value := values[key]
+		if value == nil {
+			// A key that does not exist is an empty set
+			continue
+		}
 		set, ok := value.(*Set)
 		if !ok {
 			return nil, fmt.Errorf("value at key %s is not a set", key)
